@@ -30,7 +30,7 @@ const Preamble = `(set-option :produce-models true)
 (assert (= (rt Null) (- 1)))
 (assert (= (pth Null) PNil))
 (define-fun wf-loc ((l Loc) (top Int)) Bool (or (= l Null) (and ((_ is L) l) (<= 0 (rt l)) (<= (rt l) top))))
-(define-fun wf-slice ((s Slice) (top Int)) Bool (and (<= 0 (sl.off s)) (<= 0 (sl.len s)) (<= (sl.len s) (sl.cap s)) (wf-loc (sl.base s) top) (=> (= (sl.base s) Null) (and (= (sl.cap s) 0) (= (sl.off s) 0)))))
+(define-fun wf-slice ((s Slice) (top Int)) Bool (and (<= 0 (sl.off s)) (<= 0 (sl.len s)) (<= (sl.len s) (sl.cap s)) (<= (sl.cap s) 1099511627776) (wf-loc (sl.base s) top) (=> (= (sl.base s) Null) (and (= (sl.cap s) 0) (= (sl.off s) 0)))))
 (define-fun wf-iface ((i Iface) (top Int)) Bool (and (wf-loc (if.ptr i) top) (>= (if.tag i) 0) (=> (= (if.tag i) 0) (= (if.ptr i) Null))))
 (declare-fun bvand_ (Int Int) Int)
 (declare-fun bvor_ (Int Int) Int)
